@@ -87,7 +87,8 @@ def ref_apply(d: dict[str, Any], op: Any) -> dict[str, Any]:
     return d
 
 
-def execute(ex: Execution, backend: str, ops: list[Any], initial: dict[str, Any], typed: bool = False) -> tuple[Any, list[Any]]:
+def execute(ex: Execution, backend: str, ops: list[Any], initial: dict[str, Any], typed: bool = False,
+            cancels: int = 0) -> tuple[Any, list[Any]]:
     loop = VLoop()
     loop.install()
     v: list[Any] = []
@@ -165,6 +166,7 @@ def execute(ex: Execution, backend: str, ops: list[Any], initial: dict[str, Any]
         started = 0
         maxc = 0
         steps = 0
+        cancelled: set[int] = set()
         while True:
             loop.drain()
             steps += 1
@@ -176,7 +178,13 @@ def execute(ex: Execution, backend: str, ops: list[Any], initial: dict[str, Any]
             for g in sorted(gates):
                 if not gates[g].done():
                     acts.append((f"release:{g}", ("rel", g)))
-            if not acts or steps > 80:
+            if len(cancelled) < cancels:
+                # a caller gives up (asyncio.wait_for around the store call, a cancelled step): task.cancel() while the
+                # operation waits for the store's lock or sits at its suspension point
+                for i, t in sorted(tasks.items()):
+                    if not t.done():
+                        acts.append((f"cancel{i}", ("cancel", i)))
+            if not [a for a in acts if a[1][0] != "cancel"] or steps > 80:
                 break
             c = ex.choose(len(acts), "act", [a[0] for a in acts])
             a = acts[c][1]
@@ -184,13 +192,21 @@ def execute(ex: Execution, backend: str, ops: list[Any], initial: dict[str, Any]
                 maxc = max(maxc, 1 + sum(1 for t in tasks.values() if not t.done()))
                 tasks[a[1]] = loop.create_task(run_op(a[1]))
                 started += 1
+            elif a[0] == "cancel":
+                cancelled.add(a[1])
+                tasks[a[1]].cancel()
             else:
                 gates[a[1]].set_result(None)
         w = {"backend": backend, "ops": sorted({o[0] for o in ops})}
         if typed:
             w["typed_state"] = True
+        if cancels:
+            w["a_caller_gave_up"] = bool(cancelled)
         stuck = [i for i, t in tasks.items() if not t.done()]
         failed = [(i, repr(t.exception())) for i, t in tasks.items() if t.done() and not t.cancelled() and t.exception() is not None]
+        # an operation cancelled while it waited (for the lock / at its gate, i.e. before its write) has no effect;
+        # one that had already finished when cancel() came is a completed operation
+        effective = [i for i in range(n) if i in tasks and tasks[i].done() and not tasks[i].cancelled()]
         if stuck:
             v.append(("operation_never_completes", w, f"ops {ops}: tasks {stuck} still blocked after every gate was released"))
         if failed:
@@ -204,7 +220,7 @@ def execute(ex: Execution, backend: str, ops: list[Any], initial: dict[str, Any]
             loop.drain()
             final = json.loads(json.dumps(tr.result()))
             serial = {}
-            for perm in itertools.permutations(range(n)):
+            for perm in itertools.permutations(effective if cancels else range(n)):
                 d = dict(initial)
                 for i in perm:
                     d = ref_apply(d, ops[i])
@@ -266,6 +282,14 @@ def typed_op_sets(tier: str) -> list[tuple[str, list[Any], dict[str, Any]]]:
 
 def programs(tier: str) -> list[Program]:
     ps = []
+    inc_x = ("edit_inc", "x")
+    for backend in ("memory", "sqlite"):
+        for name, ops, initial in (("inc_inc_inc", [inc_x, inc_x, inc_x], {"x": 0}),
+                                   ("inc_inc_set_state", [inc_x, inc_x, ("set_state", {"x": 100})], {"x": 0}),
+                                   ("put_inc_set", [("edit_put", "k", 1), inc_x, ("set", "x", 50)], {"x": 0})):
+            ps.append(Program(f"{backend}/cancel1/{name}", {"backend": backend, "ops": ops, "initial": initial, "cancels": 1},
+                              (lambda ex, backend=backend, ops=ops, initial=initial: execute(ex, backend, ops, initial, False, 1)),
+                              max_dev=(4 if tier == "quick" else None), min_concurrency=2))
     for backend in ("memory", "sqlite"):
         for name, ops, initial in typed_op_sets(tier):
             ps.append(Program(f"{backend}/typed/{name}", {"backend": backend, "ops": ops, "initial": initial, "typed": True},
@@ -282,7 +306,7 @@ def programs(tier: str) -> list[Program]:
 RULE = ("2-4 tasks, one store operation each from {set(path), set_state (whole-state replace), clear, edit_state blocks that read, "
         "suspend at 1-2 harness gates and write (increment, put, copy x->y)} on colliding keys - and, on a typed state with "
         "inheritance (Child(Base)), edit blocks that mutate child-only / parent fields after a suspension against set_state with the "
-        "parent type (merge) or the child type (replace) - started at explorer-chosen points; "
+        "parent type (merge) or the child type (replace) - started at explorer-chosen points, optionally one task.cancel() of a pending operation at any quiescent point; "
         "every interleaving of starts and gate releases on the real InMemoryStateStore and SqliteStateStore (DB file); the final "
         "state must equal the result of some permutation of the operations applied atomically to a plain dict; non-trivial = at "
         "least one deviation from the default order")
